@@ -143,6 +143,9 @@ def int_binop(it, op, a, b, node):
                 it.raise_(ZeroDivisionError, node)
             if not it.ctx.valid(zb_ > 0):
                 raise Unsupported("division by possibly negative value")
+        if not isinstance(b, int):
+            # non-constant divisor: uninterpreted quotient/remainder tied together by the division identity
+            return mk_int(sym.F_idiv(za, zb_)) if t is ast.FloorDiv else mk_int(sym.F_imod(za, zb_))
         return mk_int(za / zb_) if t is ast.FloorDiv else mk_int(za % zb_)
     if t is ast.Pow:
         if isinstance(b, int):
@@ -162,7 +165,10 @@ def int_binop(it, op, a, b, node):
         return mk_int(za * pow_term(2, zb_))
     if t is ast.RShift:
         _need_nonneg(it, b, zb_, node)
-        return mk_int(za / pow_term(2, zb_))
+        pw = pow_term(2, zb_)
+        if z3.is_int_value(z3.simplify(pw)):
+            return mk_int(za / pw)
+        return mk_int(sym.F_idiv(za, pw))
     if t is ast.BitAnd:
         return bit_and(it, a, b, za, zb_)
     if t is ast.BitOr:
@@ -843,7 +849,16 @@ def int_from_bytes(it, args, kwargs, node):
     b = args[0]
     order = args[1] if len(args) > 1 else kwargs.get("byteorder", "big")
     if kwargs.get("signed"):
-        raise Unsupported("signed from_bytes")
+        kw2 = dict(kwargs)
+        kw2.pop("signed")
+        u = int_from_bytes(it, args, kw2, node)
+        n = bytes_len(b) if is_bytes(b) else None
+        if n is None:
+            raise Unsupported("signed from_bytes of non-bytes")
+        if isinstance(u, int) and isinstance(n, int):
+            return u - (1 << (8 * n)) if n and u >= (1 << (8 * n - 1)) else u
+        full = pow_term(256, zi(n))
+        return mk_int(z3.If(z3.And(zi(n) > 0, 2 * zi(u) >= full), zi(u) - full, zi(u)))
     if order not in ("big", "little"):
         it.raise_(ValueError, node)
     if isinstance(b, (list, tuple)):
